@@ -13,13 +13,15 @@ pub struct AliasPlan {
     pub commodities: BTreeMap<String, Vec<String>>,
 }
 
-const COMMODITY_ALIASES: &[(&str, [&str; 3])] = &[
-    ("USD", ["Dollar", "US", "米ドル"]),
-    ("EUR", ["Euro", "EU", "欧"]),
-    ("JPY", ["Yen", "JP", "円"]),
-    ("AAPL", ["Apple", "AP", "林檎"]),
-    ("CHF", ["Franc", "CH", "フラン"]),
-    ("GBP", ["Pound", "GB", "ポンド"]),
+const COMMODITY_ALIASES: &[(&str, [&str; 5])] = &[
+    // (the last two of each row carry characters that are legal in a commodity but easily
+    // mistaken for something else: comment prefixes, non-ASCII numerics)
+    ("USD", ["Dollar", "US", "米ドル", "US#", "Dollar²"]),
+    ("EUR", ["Euro", "EU", "欧", "E%", "CO₂e"]),
+    ("JPY", ["Yen", "JP", "円", "¥%", "円²"]),
+    ("AAPL", ["Apple", "AP", "林檎", "AP#", "Apple½"]),
+    ("CHF", ["Franc", "CH", "フラン", "CH%", "Fr²"]),
+    ("GBP", ["Pound", "GB", "ポンド", "GB#", "£½"]),
 ];
 
 pub fn used_names(ledger: &Ledger) -> (BTreeSet<String>, BTreeSet<String>) {
@@ -63,7 +65,18 @@ impl AliasPlan {
             }
             let n = 1 + rng.usize(3);
             let leaf = a.rsplit(':').next().unwrap_or(a);
-            let pool = [format!("{}{}", leaf.to_lowercase(), i), format!("Al{}:{}", i, leaf), format!("別名{}", i)];
+            let mut pool = vec![
+                format!("{}{}", leaf.to_lowercase(), i),
+                format!("Al{}:{}", i, leaf),
+                format!("別名{}", i),
+                // comment-prefix characters inside a name are part of the name
+                format!("{} *{}", leaf, 10 + i),
+                format!("{}#{}%", leaf, i),
+                format!("{}|{}", leaf.to_lowercase(), i),
+            ];
+            if rng.chance(1, 2) {
+                rng.shuffle(&mut pool);
+            }
             plan.accounts.insert(a.clone(), pool.into_iter().take(n).collect());
         }
         for c in &commodities {
@@ -72,6 +85,10 @@ impl AliasPlan {
             }
             if let Some((_, al)) = COMMODITY_ALIASES.iter().find(|(k, _)| k == c) {
                 let n = 1 + rng.usize(3);
+                let mut al: Vec<&str> = al.to_vec();
+                if rng.chance(1, 2) {
+                    rng.shuffle(&mut al);
+                }
                 plan.commodities.insert(c.clone(), al.iter().take(n).map(|s| s.to_string()).collect());
             }
         }
